@@ -104,6 +104,16 @@ def run(rep, props, replay=None):
         nrm = simpson(b_norm * b_norm, x=g1)
         if np.max(np.abs(nrm - 1.0)) > 1e-9:
             bad.append("is_normalized=True does not give unit (Simpson) norms")
+        with warnings.catch_warnings():
+            warnings.simplefilter("ignore")
+            b_norm_noint = np.asarray(Basis(name=f1, n_functions=n1, argvals=DenseArgvals({"input_dim_0": g1}),
+                                            is_normalized=True, add_intercept=False).values, float)
+        nrm2 = simpson(b_norm_noint * b_norm_noint, x=g1)
+        if np.max(np.abs(nrm2 - 1.0)) > 1e-9:
+            bad.append("is_normalized=True with add_intercept=False does not give unit (Simpson) norms")
+        ref = b_ext[1:] / np.sqrt(simpson(b_ext[1:] * b_ext[1:], x=g1))[:, None]
+        if b_norm_noint.shape != ref.shape or np.max(np.abs(b_norm_noint - ref)) > 1e-9:
+            bad.append("normalised basis without intercept is not the basis without intercept, normalised")
         if bad:
             rep.violation(f"Basis({f1}): " + "; ".join(bad), {"family": f1, "n_functions": n1})
         for f2 in fams:
